@@ -188,6 +188,7 @@ class MemOrchestrator(BaseOrchestrator):
         self.invocation_status_record: dict[InvocationId, InvocationStatusRecord] = {}
         self.invocation_retries: dict[InvocationId, int] = {}
         self.invocations_to_purge: deque[tuple[float, InvocationId]] = deque()
+        self.auto_purge_marks: dict[InvocationId, float] = {}
         self.locks: dict[InvocationId, threading.Lock] = {}
 
         # Runner heartbeat tracking
@@ -397,7 +398,11 @@ class MemOrchestrator(BaseOrchestrator):
 
         :param InvocationId invocation_id: The ID of the invocation to be set up for auto-purge.
         """
-        self.invocations_to_purge.append((time(), invocation_id))
+        if invocation_id not in self.invocation_status_record:
+            return  # nothing to purge later for an id the orchestrator does not know
+        mark = time()
+        self.auto_purge_marks[invocation_id] = mark  # the latest mark is the one that counts
+        self.invocations_to_purge.append((mark, invocation_id))
 
     def auto_purge(self) -> None:
         """
@@ -407,7 +412,10 @@ class MemOrchestrator(BaseOrchestrator):
             time() - self.app.orchestrator.conf.auto_final_invocation_purge_hours * 3600
         )
         while self.invocations_to_purge and self.invocations_to_purge[0][0] <= end_time:
-            _, elem = self.invocations_to_purge.popleft()
+            mark, elem = self.invocations_to_purge.popleft()
+            if self.auto_purge_marks.get(elem) != mark:
+                continue  # marked again later (that entry is further back) or purged already
+            del self.auto_purge_marks[elem]
             self.clean_up_invocation(elem)
 
     def clean_up_invocation(self, invocation_id: "InvocationId") -> None:
@@ -645,6 +653,7 @@ class MemOrchestrator(BaseOrchestrator):
         self.invocation_status_record.clear()
         self.invocation_retries.clear()
         self.invocations_to_purge.clear()
+        self.auto_purge_marks.clear()
         self.locks.clear()
 
         self.runner_creation_time.clear()
